@@ -17,6 +17,7 @@ pub struct Ctx {
     pub samples: Vec<String>,
     pub distinct: std::collections::HashSet<u64>,
     pub nontrivial: u64,
+    pub hangs: u64,
 }
 
 fn fnv(s: &str) -> u64 {
@@ -31,7 +32,7 @@ impl Ctx {
         let cases = BufWriter::new(File::create(format!("{}/{}.cases", dir, suite)).expect("cases"));
         let oracle = BufWriter::new(File::create(format!("{}/{}.oracle", dir, suite)).expect("oracle"));
         Ctx { suite: suite.into(), seed, thorough, dir: dir.into(), replay, cases, oracle, n_cases: 0, n_viol: 0,
-              dist: BTreeMap::new(), samples: Vec::new(), distinct: Default::default(), nontrivial: 0 }
+              dist: BTreeMap::new(), samples: Vec::new(), distinct: Default::default(), nontrivial: 0, hangs: 0 }
     }
     /// One protocol line: the model must reproduce `observed` from `input`.
     /// `nontrivial`: the case reaches past the first guard of the code under test (suite-specific rule).
@@ -49,6 +50,7 @@ impl Ctx {
     pub fn violation(&mut self, props: &str, sig: &str, detail: &str) {
         writeln!(self.oracle, "VIOL {} {} :: {}", props, sig, detail).unwrap();
         self.n_viol += 1;
+        if sig.starts_with("hang") { self.hangs += 1; }
     }
     pub fn count(&mut self, key: &str) { *self.dist.entry(key.to_string()).or_insert(0) += 1; }
     pub fn add(&mut self, key: &str, n: u64) { *self.dist.entry(key.to_string()).or_insert(0) += n; }
